@@ -123,7 +123,9 @@ package keeper
 //@ requires [escrow_distinct_from_pools] module("dispute") != module("bonded_tokens_pool") && module("dispute") != module("not_bonded_tokens_pool")
 //@ requires [amounts_non_negative] has(dispute.Disputes, id) ==> dispute.Disputes[id].BurnAmount >= 0 && dispute.Disputes[id].SlashAmount >= dispute.Disputes[id].BurnAmount
 //@ requires [vote_result_is_a_defined_value] has(dispute.Votes, id) ==> 0 <= dispute.Votes[id].VoteResult && dispute.Votes[id].VoteResult <= 6
+//@ requires [execution_is_due] has(dispute.Disputes, id) && has(dispute.Votes, id) ==> dispute.Disputes[id].DisputeStatus == types.Resolved || (dispute.Votes[id].VoteResult != types.VoteResult_NO_TALLY && dispute.Disputes[id].DisputeEndTime < blocktime(ctx))
 //@ modifies bank.bal, bank.supply, dispute.Disputes, dispute.Votes, dispute.BlockInfo, reporter.*, staking.*
+//@ ensures [other_disputes_and_votes_untouched] forall j int :: j != id ==> (has(dispute.Disputes, j) <==> old(has(dispute.Disputes, j))) && dispute.Disputes[j] == old(dispute.Disputes[j]) && (has(dispute.Votes, j) <==> old(has(dispute.Votes, j))) && dispute.Votes[j] == old(dispute.Votes[j])
 //@ ensures [executes_exactly_once] old(has(dispute.Votes, id)) && old(dispute.Votes[id].Executed) ==> err != nil
 //@ ensures [marks_executed] err == nil ==> dispute.Votes[id].Executed && !dispute.Disputes[id].PendingExecution
 //@ ensures [only_resolved_and_tallied_disputes] err == nil ==> dispute.Disputes[id].DisputeStatus == types.Resolved && old(dispute.Votes[id].VoteResult) != types.VoteResult_NO_TALLY
